@@ -102,16 +102,16 @@ async fn bmp_read<T: AsyncRead + Unpin>(
     }
 }
 
-pub struct BmpStream<T: AsyncRead> {
+pub struct BmpStream<'a, T: AsyncRead> {
     rx: Option<T>,
-    gate: Gate,
+    gate: &'a Gate,
     tracing_mode: Arc<ArcSwap<TracingMode>>,
 }
 
-impl<T: AsyncRead + Unpin> BmpStream<T> {
+impl<'a, T: AsyncRead + Unpin> BmpStream<'a, T> {
     pub fn new(
         rx: T,
-        gate: Gate,
+        gate: &'a Gate,
         tracing_mode: Arc<ArcSwap<TracingMode>>,
     ) -> Self {
         Self {
